@@ -138,16 +138,19 @@ impl Method for PhoneticMethod {
                 SplittedString::split(self.suggestion.suggestions[index].to_string(), true)
                     .word()
                     .to_string();
-            self.selections.insert(
-                SplittedString::split(&self.buffer, false)
-                    .word()
-                    .to_string(),
-                suggestion,
-            );
-            // A failed save loses this selection on the next start only, so don't
-            // take the host application down for it.
-            if let Ok(selections) = serde_json::to_string(&self.selections) {
-                let _ = write(config.get_user_phonetic_selection_data(), selections);
+            let word = SplittedString::split(&self.buffer, false)
+                .word()
+                .to_string();
+
+            // There is nothing to remember when the text or the candidate
+            // consists of punctuation marks only (e.g. an emoticon).
+            if !word.is_empty() && !suggestion.is_empty() {
+                self.selections.insert(word, suggestion);
+                // A failed save loses this selection on the next start only, so don't
+                // take the host application down for it.
+                if let Ok(selections) = serde_json::to_string(&self.selections) {
+                    let _ = write(config.get_user_phonetic_selection_data(), selections);
+                }
             }
         }
 
